@@ -4,8 +4,9 @@
   Obligations are listed in harness/props/c35.py.
 -/
 import NiftyVerif.Lemmas.Response
-import NiftyVerif.Lemmas.ResponseLos4
+import NiftyVerif.Lemmas.ResponseLos7
 import NiftyVerif.Lemmas.Nft
+import NiftyVerif.Lemmas.ResponseSampling
 import NiftyVerif.Lemmas.LinOps
 import NiftyVerif.Props.C02
 
@@ -223,6 +224,69 @@ theorem los_clip_inside (shape : List ℕ) (s dir : List ℚ) (hlt : (clipT shap
     ∀ a ∈ boxAxes shape s dir, 0 ≤ a.2.1 + t * a.2.2 ∧ a.2.1 + t * a.2.2 ≤ (a.1 : ℚ) :=
   clipT_inside shape s dir hlt t h1 h2
 
+/-- every pixel index the code emits for a generic line lies inside the grid `[0, Π shape)` (so `coo_matrix` never sees an
+    out-of-range column) — same hypotheses as the refinement theorem, all axis lengths positive -/
+theorem los_traverse_in_grid (eps : ℚ) (heps : 0 ≤ eps) (shape : List ℕ) (s e : List ℚ)
+    (hl1 : shape.length = s.length) (hl2 : s.length = e.length) (hn : ∀ n ∈ shape, 0 < n)
+    (hne : (clipT shape s (dirOf s e)).1 + eps < (clipT shape s (dirOf s e)).2 - eps)
+    (hgen : ∀ se ∈ s.zip e, se.2 - se.1 ≠ 0 → ¬ Cross se.1 (se.2 - se.1) ((clipT shape s (dirOf s e)).1 + eps))
+    (hnd : ((events shape s (dirOf s e) ((clipT shape s (dirOf s e)).1 + eps)
+              ((clipT shape s (dirOf s e)).2 - eps)).map Prod.fst).Nodup) :
+    ∀ p ∈ ResponseLos.traverse eps shape s e, 0 ≤ p.1 ∧ p.1 < (prodL shape : ℤ) := by
+  have hlt : (clipT shape s (dirOf s e)).1 < (clipT shape s (dirOf s e)).2 := by linarith
+  have hnn : ∀ se ∈ s.zip e, 0 ≤ se.1 + ((clipT shape s (dirOf s e)).1 + eps) * (se.2 - se.1) := by
+    intro se hse
+    obtain ⟨a, ha, h1, h2⟩ := boxAxes_zip shape s e hl1 hl2 se hse
+    have i1 := clipT_inside shape s (dirOf s e) hlt ((clipT shape s (dirOf s e)).1 + eps) (by linarith) (by linarith) a ha
+    rw [h1, h2] at i1
+    exact i1.1
+  obtain ⟨L, hLs, hLb, hw⟩ := traverseFrom_is_walk shape s e _ _ hne hnn hgen hnd
+  rw [traverse_eq, if_neg (not_le.mpr hne), hw]
+  intro p hp
+  obtain ⟨m, h1, h2, h3⟩ := walkG_mem _ _ L _ hne hLs hLb p hp
+  rw [h3]
+  exact flatF_in_grid m shape s (dirOf s e) hn
+    (clipT_inside_strict shape s (dirOf s e) hn m (by linarith) (by linarith))
+
+/-- the `generic` flag the driver computes for every generated line (and the harness uses to decide whether the two Lean models
+    must agree exactly) is precisely the pair of hypotheses of `los_traverse_refines` -/
+theorem los_generic_flag_sound (shape : List ℕ) (s e : List ℚ) (lo hi : ℚ) (h : genericOn shape s (dirOf s e) lo hi = true) :
+    ((events shape s (dirOf s e) lo hi).map Prod.fst).Nodup ∧
+    ∀ se ∈ s.zip e, se.2 - se.1 ≠ 0 → ¬ Cross se.1 (se.2 - se.1) lo := genericOn_spec shape s e lo hi h
+
+/-- **matrix level** (`LOSResponse.__init__`): if every line either misses the grid (empty shrunk interval) or is generic, the COO
+    triples handed to `coo_matrix` are, row by row, the `(pixel, Δt)` lists of the independent segment model on the shrunk
+    intervals, and no index is out of range (`losInit` does not return `none` = `ValueError`) -/
+theorem los_init_refines (eps : ℚ) (heps : 0 ≤ eps) (shape : List ℕ) (hn : ∀ n ∈ shape, 0 < n) (dist : List ℚ)
+    (starts ends : List (List ℚ))
+    (hrows : ∀ r, r < starts.length → RowOK eps shape (toPix (starts.getD r []) dist) (toPix (ends.getD r []) dist)) :
+    losInit eps shape dist starts ends = some ⟨starts.length, prodL shape,
+      (List.range starts.length).flatMap fun r =>
+        (segRow eps shape (toPix (starts.getD r []) dist) (toPix (ends.getD r []) dist)).map fun p => (r, p.1, p.2)⟩ :=
+  losInit_refines eps heps shape hn dist starts ends hrows
+
+/-- the code's clipping (`d0/d1`, `np.minimum/np.maximum`, the `direction == 0` sentinel `±5·10¹¹`, `max(0,·)`, `min(1,·)`,
+    `max(dmin, dmax)`) computes exactly the parameter interval of the independent `clipBox` — every dimension and shape with
+    positive axis lengths, every start/end -/
+theorem los_clip_eq_clipBox (shape : List ℕ) (s e : List ℚ) (hn : ∀ n ∈ shape, 0 < n) :
+    clipBox shape s e =
+      if (clipT shape s (dirOf s e)).1 < (clipT shape s (dirOf s e)).2 then some (clipT shape s (dirOf s e)) else none :=
+  clipBox_eq_clipT shape s e hn
+
+/-- **`eps = 0`, against `losRow`**: for a generic line that starts inside the grid the transcription of `_comp_traverse`
+    emits exactly the `(pixel, Δt)` list of the independent exact traversal model (the one `los_weights_sum` is about) -/
+theorem los_traverse_refines_losRow (shape : List ℕ) (s e : List ℚ)
+    (hl1 : shape.length = s.length) (hl2 : s.length = e.length) (hn : ∀ n ∈ shape, 0 < n)
+    (hne : (clipT shape s (dirOf s e)).1 < (clipT shape s (dirOf s e)).2)
+    (hgen : ∀ se ∈ s.zip e, se.2 - se.1 ≠ 0 → ¬ Cross se.1 (se.2 - se.1) (clipT shape s (dirOf s e)).1)
+    (hnd : ((events shape s (dirOf s e) (clipT shape s (dirOf s e)).1 (clipT shape s (dirOf s e)).2).map Prod.fst).Nodup) :
+    ResponseLos.traverse 0 shape s e = (losRow shape s e).map fun p => ((p.1 : ℤ), p.2) := by
+  have hc := clipBox_eq_clipT shape s e hn
+  rw [if_pos hne] at hc
+  rw [los_traverse_refines_zero shape s e hl1 hl2 hne hgen hnd]
+  unfold losRow
+  rw [hc]
+
 -- non-vacuity: a 2-D line from inside pixel (0,0) to pixel (2,1) of a 3×2 grid meets every hypothesis of the refinement theorem
 -- (`List.mergeSort` is defined by well-founded recursion and does not reduce in the kernel, so the two sides are not evaluated
 --  here; the driver evaluates both on every generated line and the harness compares them — `los-refine-compared` in the evidence)
@@ -232,14 +296,51 @@ example : ResponseLos.traverse 0 [3, 2] [3/4, 3/4] [13/4, 2] =
   los_traverse_refines_zero [3, 2] [3/4, 3/4] [13/4, 2] rfl rfl (by decide +kernel)
     (genEntryB_spec _ _ _ (by decide +kernel)) (by decide +kernel)
 example : clipT [3, 2] [3/4, 3/4] (dirOf [3/4, 3/4] [13/4, 2]) = (0, 9/10) := by decide +kernel
+example : clipBox [3, 2] [3/4, 3/4] [13/4, 2] = some (0, 9/10) := by decide +kernel
 example : (events [3, 2] [3/4, 3/4] (dirOf [3/4, 3/4] [13/4, 2]) 0 (9/10)).map Prod.fst = [1/10, 1/2, 1/5] := by decide +kernel
 -- the point excluded by the `eps = 0` hypothesis `hgen`: a line entering through the low face (entry point ON a grid plane); there
 -- the code without its 1e-7 would emit a zero-length first segment and shift every later pixel by one row (driver output for
 -- `traverse 0 [3,2] [0,5/6] [4,13/6]`: pixels 0,2,3,5,7 — pixel 7 does not exist), with eps = 1e-7: pixels 0,1,3,5
+example : genericOn [3, 2] [3/4, 3/4] (dirOf [3/4, 3/4] [13/4, 2]) 0 (9/10) = true := by decide +kernel
+example : RowOK 0 [3, 2] [3/4, 3/4] [13/4, 2] :=
+  have h : genericOn [3, 2] [3/4, 3/4] (dirOf [3/4, 3/4] [13/4, 2]) ((clipT [3, 2] [3/4, 3/4] (dirOf [3/4, 3/4] [13/4, 2])).1 + 0)
+      ((clipT [3, 2] [3/4, 3/4] (dirOf [3/4, 3/4] [13/4, 2])).2 - 0) = true := by decide +kernel
+  Or.inr ⟨rfl, rfl, (genericOn_spec _ _ _ _ _ h).2, (genericOn_spec _ _ _ _ _ h).1⟩
 example : genEntryB [0, 5/6] [4, 13/6] 0 = false := by decide +kernel
 example : genEntryB [0, 5/6] [4, 13/6] (1/10000000) = true := by decide +kernel
 
 end los
+
+/-! ### nifty.re SamplingCartesianGridLOS (Model/ResponseSampling.lean: transcription of `sampling_los.py::_los`) -/
+section sampling
+open NiftyVerif.ResponseSampling
+
+/-- the sampled line of sight (`n` midpoint samples, `map_coordinates(order=1)`) is EXACT on affine fields: whenever every sampling
+    point lies inside the array (no nan), `_los` returns the field value at the midpoint of the segment (in index coordinates
+    `x·(shape−1)/shape/distances`) times `‖end − start‖` (that factor is applied outside the model) — any dimension, shape, `n > 0` -/
+theorem sampling_los_exact_affine (shape : List ℕ) (dist : List ℚ) (c0 : ℚ) (cs : List ℚ) (start stop : List ℚ) (n : ℕ)
+    (hn : 0 < n)
+    (hl1 : (mulV start (l2i shape dist)).length = cs.length) (hl2 : (mulV stop (l2i shape dist)).length = cs.length)
+    (hvalid : ∀ k, k < n → validCell shape
+      ((samplePoint n k (mulV start (l2i shape dist)) (mulV stop (l2i shape dist))).map Rat.floor) = true) :
+    samplingLos shape dist (fun idx => affL c0 cs (idx.map fun i : ℤ => (i : ℚ))) start stop n =
+      some (affL c0 cs (midV (mulV start (l2i shape dist)) (mulV stop (l2i shape dist)))) :=
+  samplingLos_exact_affine shape dist c0 cs start stop n hn hl1 hl2 hvalid
+
+/-- `map_coordinates(order=1)` reproduces every multi-affine field exactly at every point inside the array -/
+theorem sampling_interp_exact_multiaffine {d : ℕ} (f : MultiAff ℚ d) (shape : List ℕ) (p : List ℚ) (hp : p.length = d)
+    (hv : validCell shape (p.map Rat.floor) = true) :
+    mapCoord1 shape (fun idx => f.eval (idx.map fun i : ℤ => (i : ℚ))) p = some (f.eval p) :=
+  mapCoord1_multiaff f shape _ p hp hv (fun _ _ => rfl)
+
+-- non-vacuity: 1-D, three pixels, two samples, field 2 + 3·i: index-space segment [1/3, 5/3], midpoint 1, value 5
+example : samplingLos [3] [1] (fun idx => affL 2 [3] (idx.map fun i : ℤ => (i : ℚ))) [1/2] [5/2] 2 = some 5 := by decide +kernel
+example : validCell [3] ((samplePoint 2 1 (mulV [1/2] (l2i [3] [1])) (mulV [5/2] (l2i [3] [1]))).map Rat.floor) = true := by
+  decide +kernel
+-- a sampling point in the last cell row (index ≥ n−1): nan in the code, `none` in the model
+example : samplingLos [3] [1] (fun _ => 1) [1/2] [4] 2 = none := by decide +kernel
+
+end sampling
 
 /-! ### Nufft / Gridder / VariablePositionNufft: explicit Fourier sums on a rational lattice (Model/Nft.lean) -/
 section nft
